@@ -28,6 +28,7 @@ fn one_call(ctx: &Ctx, st: &RunSetup, ep: usize, args: &[ArgVal], ret: &dyn DynV
         sh: st.sh.clone(),
         call: 0,
         plan: Arc::new(Mutex::new(plan)),
+        measure: None,
     };
     let mut call = CallRec {
         client_kind: crate::mirror::ClientKind::Generated,
@@ -228,6 +229,7 @@ pub fn run_enum(e: &WireEngine, ctx: &Ctx) {
                 FK::WrongDocument,
                 FK::UnionMismatch,
                 FK::UnionReorder,
+                FK::NumberOutOfRange,
                 FK::Oversize,
                 FK::ByteFlip,
             ]
@@ -247,6 +249,7 @@ pub fn run_enum(e: &WireEngine, ctx: &Ctx) {
                 FK::WrongDocument,
                 FK::UnionMismatch,
                 FK::UnionReorder,
+                FK::NumberOutOfRange,
                 FK::ByteFlip,
             ]
         };
